@@ -684,4 +684,126 @@ theorem segmentation_independent_client (cfg : CliCfg) (key : Bytes) (cs : List 
     [] (by decide) cs
   simpa [clientFeed] using this
 
+/-! ### never escapes -/
+
+/-- the web-status query does not make `hyperlink` or `int` raise -/
+def RedirectBenign : Redirect → Prop
+  | .bad _ => False
+  | .url _ .bad => False
+  | _ => True
+
+theorem isFail_not_escape {o : SrvOut} (h : IsFail o) : o.isEscape = false := by
+  obtain ⟨c, e, rfl⟩ := h; rfl
+
+/-- **never_escapes** (server, partial: outside the web-status redirect branch [F5] — `webStatus` off, or a query whose
+`redirect` / `after` parameters the libraries accept).  For every byte string no exception leaves `processHandshake`. -/
+theorem server_never_escapes_partial (cfg : SrvCfg) (env : SrvEnv)
+    (hq : cfg.webStatus = false ∨ RedirectBenign env.redirect) (data : Bytes) :
+    (server cfg env data).isEscape = false := by
+  unfold server
+  split
+  · split <;> rfl
+  · split
+    · rfl
+    · split
+      · next o ho =>
+        rcases validate_error ho with h | ⟨hws, _, h | h | h⟩
+        · exact isFail_not_escape h
+        · obtain ⟨r, rfl⟩ := h; rfl
+        · obtain ⟨r, rfl⟩ := h; rfl
+        · obtain ⟨c, rfl, hr | ⟨u, hr, _⟩⟩ := h
+          · rcases hq with hq | hq
+            · rw [hq] at hws; cases hws
+            · rw [hr] at hq; exact absurd hq (by simp [RedirectBenign])
+          · rcases hq with hq | hq
+            · rw [hq] at hws; cases hws
+            · rw [hr] at hq; exact absurd hq (by simp [RedirectBenign])
+      · split
+        · rfl
+        · rfl
+        · next proto uh _ =>
+          rcases succeed_cases cfg _ proto uh with ⟨o, _, _, h3, h⟩ | ⟨resp, e, h⟩
+          · rw [h]; exact h3
+          · rw [h]; rfl
+
+theorem feed_result_cases {α : Type} (judge : Bytes → α) (inc : α → Bool) (incv : α) (d : Bytes) (cs : List Bytes) :
+    (feedAllWith judge inc (.buffering d) cs).result incv = incv ∨
+    ∃ d', (feedAllWith judge inc (.buffering d) cs).result incv = judge d' := by
+  induction cs generalizing d with
+  | nil => left; rfl
+  | cons c cs ih =>
+    simp only [feedAllWith, List.foldl_cons, feedWith]
+    split
+    · exact ih (d ++ c)
+    · right
+      have := feedAll_done judge inc (judge (d ++ c)) cs
+      simp only [feedAllWith] at this
+      rw [this]
+      exact ⟨d ++ c, rfl⟩
+
+/-- … and therefore none leaves `dataReceived`, however the octets are segmented -/
+theorem serverFeed_never_escapes_partial (cfg : SrvCfg) (env : SrvEnv)
+    (hq : cfg.webStatus = false ∨ RedirectBenign env.redirect) (cs : List Bytes) :
+    (serverFeed cfg env cs).isEscape = false := by
+  unfold serverFeed
+  rcases feed_result_cases (server cfg env) SrvOut.isIncomplete .incomplete [] cs with h | ⟨d, h⟩
+  · rw [h]; rfl
+  · rw [h]; exact server_never_escapes_partial cfg env hq d
+
+/-- a complete header block always has a first line: `raw[0]` in `parseHttpHeader` cannot raise -/
+theorem parse_head_some {data : Bytes} {i : Nat} (h : find crlfcrlf data = some i) :
+    parseHttpHeader (data.take (i + 4)) ≠ none := by
+  have hs := (find_some_iff crlfcrlf data i).1 h
+  have hb : i + 4 ≤ data.length := by simpa [crlfcrlf] using find_bound h
+  obtain ⟨t, ht⟩ := hs.2.1
+  have : data.take (i + 4) = data.take i ++ [13, 10, 13, 10] := by
+    have h1 : data = data.take i ++ (crlfcrlf ++ t) := by rw [ht, List.take_append_drop]
+    have hl : (data.take i).length = i := by simp; omega
+    conv => lhs; rw [h1]
+    rw [List.take_append, hl]
+    simp [crlfcrlf, List.take_take]
+  rw [this]
+  unfold parseHttpHeader
+  have := splitlines_ends_crlfcrlf (data.take i)
+  split
+  · next hnil => exact absurd hnil this
+  · simp
+
+/-- **never_escapes** (client, partial: for header blocks that are valid UTF-8 — the excluded class is F4). -/
+theorem client_never_escapes_partial (cfg : CliCfg) (key data : Bytes) (hutf : HeadUtf8 data) :
+    (client cfg key data).isEscape = false := by
+  unfold client
+  split
+  · rfl
+  · next eoh hf =>
+    simp only [hutf eoh hf, Bool.not_true, Bool.false_eq_true, if_false]
+    split
+    · next hp => exact absurd hp (parse_head_some hf)
+    · split
+      · next o ho => rw [cvalidate_error ho]; rfl
+      · rfl
+
+theorem CliOut.isEscape_dropRest (o : CliOut) : o.dropRest.isEscape = o.isEscape := by cases o <;> rfl
+
+theorem clientFeed_never_escapes_partial (cfg : CliCfg) (key : Bytes) (cs : List Bytes) (hutf : HeadUtf8 cs.flatten) :
+    (clientFeed cfg key cs).isEscape = false := by
+  rw [← CliOut.isEscape_dropRest, segmentation_independent_client, CliOut.isEscape_dropRest]
+  exact client_never_escapes_partial cfg key _ hutf
+
+/-- the full statement `∀ cfg env data, (server cfg env data).isEscape = false` is FALSE today — F5: -/
+example : (server {} { redirect := .url b!"http://x.y/" .bad }
+    b!"GET /?redirect=http%3A%2F%2Fx.y&after=abc HTTP/1.1\r\nHost: a\r\n\r\n").isEscape = true := by decide
+example : (server {} { redirect := .bad .urlParseError }
+    b!"GET /?redirect=http%3A%2F%2F[ HTTP/1.1\r\nHost: a\r\n\r\n").isEscape = true := by decide
+/-- … and `∀ cfg key data, (client cfg key data).isEscape = false` is FALSE today — F4: -/
+example : (client {} b!"AAAAAAAAAAAAAAAAAAAAAA==" (b!"HTTP/1.1 101 " ++ [0xff] ++ crlfcrlf)).isEscape = true := by decide
+/-- the hypotheses of the partial forms are satisfiable on non-trivial inputs -/
+example : RedirectBenign (.url b!"http://x.y/" (.val 3)) := by simp [RedirectBenign]
+example : HeadUtf8 b!"HTTP/1.1 101 X\r\n\r\n" := by
+  intro eoh h
+  have : eoh = 14 := by
+    have : find crlfcrlf b!"HTTP/1.1 101 X\r\n\r\n" = some 14 := by decide
+    rw [this] at h; cases h; rfl
+  subst this; decide
+
 end Abverif.Handshake
